@@ -260,7 +260,19 @@ def r17b(ctx):
                    f"{len(ca.sites)} dereference(s) of the exhausted-iterator field are guarded")
     # bounds(): the lower bound scans live nodes only and never exceeds the best upper bound
     b = m.method(q, "bounds")
-    live = pat.first("if not N.deleted:\n    L = min(N.key.lower_bound, L)", b.node)[1]
+    # `L = min(N.key.lower_bound, L)` for live nodes only - as `if not N.deleted:` or behind `if N.deleted: continue`
+    live = None
+    for a_ in walk_no_nested(b.node):
+        if isinstance(a_, ast.Assign) and isinstance(a_.targets[0], ast.Name) and isinstance(a_.value, ast.Call) and call_name(a_.value) == "min":
+            L_ = a_.targets[0].id
+            nk = [x for x in a_.value.args if isinstance(x, ast.Attribute) and x.attr == "lower_bound" and isinstance(x.value, ast.Attribute)
+                  and x.value.attr == "key" and isinstance(x.value.value, ast.Name)]
+            if nk and any(dotted(x) == L_ for x in a_.value.args):
+                N_ = nk[0].value.value.id
+                lp_ = next((z for z in __import__("gtstatic.astx", fromlist=["ancestors"]).ancestors(a_) if isinstance(z, ast.For)), None)
+                facts_ = {(ast.unparse(t).replace(" ", ""), pol) for t, pol in flatten_conditions(dominating_conditions(a_, stop=lp_))}
+                if (f"{N_}.deleted", False) in facts_:
+                    live = {"L": L_, "N": N_}
     capped = False
     if live is not None:
         from ..astx import inline_locals
